@@ -96,7 +96,7 @@ theorem length_putInt (size : Nat) (v : Int) : (putInt size v).length = size := 
 
 /-- the encoder's field bytes are the declared bit layout -/
 theorem encFields_eq_layout : ∀ (fs : List Field) (vs : List FVal) (acc lo : Nat),
-    fieldsWF fs lo = true → fitsFields fs vs = true → acc % 2 ^ (8 - lo) = 0 →
+    layoutFieldsWF fs lo = true → fitsFields fs vs = true → acc % 2 ^ (8 - lo) = 0 →
     encFields fs vs acc = Layout.fields fs vs acc := by
   intro fs
   induction fs with
@@ -106,12 +106,12 @@ theorem encFields_eq_layout : ∀ (fs : List Field) (vs : List FVal) (acc lo : N
     have h0 : (0 : Nat) % 2 ^ (8 - 0) = 0 := by simp
     cases hk : f.kind with
     | pad size =>
-      simp only [fieldsWF, hk] at hwf
+      simp only [layoutFieldsWF, hk] at hwf
       simp only [fitsFields, hk] at hfit
       simp only [encFields, Layout.fields, hk]
       rw [ih vs 0 0 hwf hfit h0]
     | scalar size bits bit part signed isBool =>
-      simp only [fieldsWF, hk] at hwf
+      simp only [layoutFieldsWF, hk] at hwf
       simp only [fitsFields, hk] at hfit
       cases vs with
       | nil => simp at hfit
@@ -144,7 +144,7 @@ theorem encFields_eq_layout : ∀ (fs : List Field) (vs : List FVal) (acc lo : N
             | false => simp only [Bool.false_eq_true, if_false] at hwf' ⊢; rw [ih vs' 0 0 hwf' hfit' h0]
         | _ => simp [FKind.fitsVal] at hv
     | fixedArr elem len =>
-      simp only [fieldsWF, hk] at hwf
+      simp only [layoutFieldsWF, hk] at hwf
       simp only [fitsFields, hk] at hfit
       cases vs with
       | nil => simp at hfit
@@ -154,7 +154,7 @@ theorem encFields_eq_layout : ∀ (fs : List Field) (vs : List FVal) (acc lo : N
         | bytes b => simp only [encFields, Layout.fields, hk]; rw [ih vs' 0 0 hwf hfit.2 h0]
         | _ => simp [FKind.fitsVal] at hfit
     | arr elem =>
-      simp only [fieldsWF, hk] at hwf
+      simp only [layoutFieldsWF, hk] at hwf
       simp only [fitsFields, hk] at hfit
       cases vs with
       | nil => simp at hfit
@@ -167,7 +167,7 @@ theorem encFields_eq_layout : ∀ (fs : List Field) (vs : List FVal) (acc lo : N
           rw [ih vs' 0 0 hwf hfit.2 h0, put16_eq_beBytes, show putNat elem = beBytes elem from funext (putNat_eq_beBytes elem)]
         | _ => simp [FKind.fitsVal] at hfit
     | str =>
-      simp only [fieldsWF, hk] at hwf
+      simp only [layoutFieldsWF, hk] at hwf
       simp only [fitsFields, hk] at hfit
       cases vs with
       | nil => simp at hfit
@@ -177,7 +177,7 @@ theorem encFields_eq_layout : ∀ (fs : List Field) (vs : List FVal) (acc lo : N
         | bytes b => simp only [encFields, Layout.fields, hk]; rw [ih vs' 0 0 hwf hfit.2 h0, put16_eq_beBytes]
         | _ => simp [FKind.fitsVal] at hfit
     | bitArr =>
-      simp only [fieldsWF, hk] at hwf
+      simp only [layoutFieldsWF, hk] at hwf
       simp only [fitsFields, hk] at hfit
       cases vs with
       | nil => simp at hfit
@@ -187,7 +187,7 @@ theorem encFields_eq_layout : ∀ (fs : List Field) (vs : List FVal) (acc lo : N
         | bits n b => simp only [encFields, Layout.fields, hk]; rw [ih vs' 0 0 hwf hfit.2 h0, put16_eq_beBytes]
         | _ => simp [FKind.fitsVal] at hfit
     | rest =>
-      simp only [fieldsWF, hk] at hwf
+      simp only [layoutFieldsWF, hk] at hwf
       simp only [fitsFields, hk] at hfit
       cases vs with
       | nil => simp at hfit
@@ -200,7 +200,7 @@ theorem encFields_eq_layout : ∀ (fs : List Field) (vs : List FVal) (acc lo : N
 /-- `getHeader`'s field size agrees with the bytes `EncodeFields` writes, modulo 2^16 (each variable-length field is
 sized in uint16 arithmetic) -/
 theorem fieldsSz_mod : ∀ (fs : List Field) (vs : List FVal) (acc lo : Nat),
-    fieldsWF fs lo = true → fitsFields fs vs = true →
+    layoutFieldsWF fs lo = true → fitsFields fs vs = true →
     fieldsSz fs vs % 65536 = (encFields fs vs acc).length % 65536 := by
   intro fs
   induction fs with
@@ -209,13 +209,13 @@ theorem fieldsSz_mod : ∀ (fs : List Field) (vs : List FVal) (acc lo : Nat),
     intro vs acc lo hwf hfit
     cases hk : f.kind with
     | pad size =>
-      simp only [fieldsWF, hk] at hwf
+      simp only [layoutFieldsWF, hk] at hwf
       simp only [fitsFields, hk] at hfit
       simp only [encFields, fieldsSz, hk, List.length_append, List.length_replicate]
       have := ih vs 0 0 hwf hfit
       omega
     | scalar size bits bit part signed isBool =>
-      simp only [fieldsWF, hk] at hwf
+      simp only [layoutFieldsWF, hk] at hwf
       simp only [fitsFields, hk] at hfit
       cases vs with
       | nil => simp at hfit
@@ -241,7 +241,7 @@ theorem fieldsSz_mod : ∀ (fs : List Field) (vs : List FVal) (acc lo : Nat),
               omega
         | _ => simp [FKind.fitsVal] at hv
     | fixedArr elem len =>
-      simp only [fieldsWF, hk] at hwf
+      simp only [layoutFieldsWF, hk] at hwf
       simp only [fitsFields, hk] at hfit
       cases vs with
       | nil => simp at hfit
@@ -255,7 +255,7 @@ theorem fieldsSz_mod : ∀ (fs : List Field) (vs : List FVal) (acc lo : Nat),
           omega
         | _ => simp [FKind.fitsVal] at hfit
     | arr elem =>
-      simp only [fieldsWF, hk] at hwf
+      simp only [layoutFieldsWF, hk] at hwf
       simp only [fitsFields, hk] at hfit
       cases vs with
       | nil => simp at hfit
@@ -276,7 +276,7 @@ theorem fieldsSz_mod : ∀ (fs : List Field) (vs : List FVal) (acc lo : Nat),
           omega
         | _ => simp [FKind.fitsVal] at hfit
     | str =>
-      simp only [fieldsWF, hk] at hwf
+      simp only [layoutFieldsWF, hk] at hwf
       simp only [fitsFields, hk] at hfit
       cases vs with
       | nil => simp at hfit
@@ -289,7 +289,7 @@ theorem fieldsSz_mod : ∀ (fs : List Field) (vs : List FVal) (acc lo : Nat),
           omega
         | _ => simp [FKind.fitsVal] at hfit
     | bitArr =>
-      simp only [fieldsWF, hk] at hwf
+      simp only [layoutFieldsWF, hk] at hwf
       simp only [fitsFields, hk] at hfit
       cases vs with
       | nil => simp at hfit
@@ -304,7 +304,7 @@ theorem fieldsSz_mod : ∀ (fs : List Field) (vs : List FVal) (acc lo : Nat),
           omega
         | _ => simp [FKind.fitsVal] at hfit
     | rest =>
-      simp only [fieldsWF, hk] at hwf
+      simp only [layoutFieldsWF, hk] at hwf
       simp only [fitsFields, hk] at hfit
       cases vs with
       | nil => simp at hfit
@@ -321,7 +321,7 @@ set_option linter.unusedSimpArgs false in
 /-- `getHeader`'s field size is the number of bytes `EncodeFields` writes (each variable-length field is sized in uint16
 arithmetic; `fits` keeps every one of them below 2^16) -/
 theorem fieldsSz_exact : ∀ (fs : List Field) (vs : List FVal) (acc lo : Nat),
-    fieldsWF fs lo = true → fitsFields fs vs = true →
+    layoutFieldsWF fs lo = true → fitsFields fs vs = true →
     fieldsSz fs vs = (encFields fs vs acc).length := by
   intro fs
   induction fs with
@@ -330,13 +330,13 @@ theorem fieldsSz_exact : ∀ (fs : List Field) (vs : List FVal) (acc lo : Nat),
     intro vs acc lo hwf hfit
     cases hk : f.kind with
     | pad size =>
-      simp only [fieldsWF, hk] at hwf
+      simp only [layoutFieldsWF, hk] at hwf
       simp only [fitsFields, hk] at hfit
       simp only [encFields, fieldsSz, hk, List.length_append, List.length_replicate]
       have := ih vs 0 0 hwf hfit
       omega
     | scalar size bits bit part signed isBool =>
-      simp only [fieldsWF, hk] at hwf
+      simp only [layoutFieldsWF, hk] at hwf
       simp only [fitsFields, hk] at hfit
       cases vs with
       | nil => simp at hfit
@@ -362,7 +362,7 @@ theorem fieldsSz_exact : ∀ (fs : List Field) (vs : List FVal) (acc lo : Nat),
               omega
         | _ => simp [FKind.fitsVal] at hv
     | fixedArr elem len =>
-      simp only [fieldsWF, hk] at hwf
+      simp only [layoutFieldsWF, hk] at hwf
       simp only [fitsFields, hk] at hfit
       cases vs with
       | nil => simp at hfit
@@ -376,7 +376,7 @@ theorem fieldsSz_exact : ∀ (fs : List Field) (vs : List FVal) (acc lo : Nat),
           omega
         | _ => simp [FKind.fitsVal] at hfit
     | arr elem =>
-      simp only [fieldsWF, hk] at hwf
+      simp only [layoutFieldsWF, hk] at hwf
       simp only [fitsFields, hk] at hfit
       cases vs with
       | nil => simp at hfit
@@ -399,7 +399,7 @@ theorem fieldsSz_exact : ∀ (fs : List Field) (vs : List FVal) (acc lo : Nat),
           omega
         | _ => simp [FKind.fitsVal] at hfit
     | str =>
-      simp only [fieldsWF, hk] at hwf
+      simp only [layoutFieldsWF, hk] at hwf
       simp only [fitsFields, hk] at hfit
       cases vs with
       | nil => simp at hfit
@@ -413,7 +413,7 @@ theorem fieldsSz_exact : ∀ (fs : List Field) (vs : List FVal) (acc lo : Nat),
           omega
         | _ => simp [FKind.fitsVal] at hfit
     | bitArr =>
-      simp only [fieldsWF, hk] at hwf
+      simp only [layoutFieldsWF, hk] at hwf
       simp only [fitsFields, hk] at hfit
       cases vs with
       | nil => simp at hfit
@@ -427,7 +427,7 @@ theorem fieldsSz_exact : ∀ (fs : List Field) (vs : List FVal) (acc lo : Nat),
           omega
         | _ => simp [FKind.fitsVal] at hfit
     | rest =>
-      simp only [fieldsWF, hk] at hwf
+      simp only [layoutFieldsWF, hk] at hwf
       simp only [fitsFields, hk] at hfit
       cases vs with
       | nil => simp at hfit
